@@ -1531,7 +1531,8 @@ fn interpolate_string(
         // `}` at the end).
         let directive = &s[(cur_slot_start+2) .. (cur_slot_end-1)];
 
-        let slot_col = col + cur_slot_start + 4;
+        // Slot offsets are in bytes, but columns are counted in characters.
+        let slot_col = col + s[.. *cur_slot_start].chars().count() + 4;
 
         let mut lexer = Lexer::new(directive);
 
